@@ -54,7 +54,7 @@ func runHistory(t *rapid.T, persistent bool) {
 	w := lstore.NewWorld(t, cfg, nil, rapid.Uint64().Draw(t, "hashInit"))
 	defer w.Close()
 
-	var failedKeysRead, heldAcrossRotation int
+	var failedKeysRead, heldAcrossRotation, rotationsDuringSlicing, overlappedFM int
 	failedObjs := map[*lstore.Obj]bool{}
 
 	newUpload := func() {
@@ -208,8 +208,30 @@ func runHistory(t *rapid.T, persistent bool) {
 				cuts = append(cuts, prev)
 			}
 			want := rapid.IntRange(0, ncuts).Draw(t, "want")
-			c.Add("composite", o.ID, inst, fmt.Sprint(cuts), want)
-			w.GetFromComposite(o, inst, cuts, want)
+			// Other clients' uploads completing while the slicer runs (the
+			// unlocked slicing phase of the call).
+			nDuring := 0
+			if rapid.IntRange(0, 2).Draw(t, "uploadsDuringSlicing") == 0 {
+				nDuring = rapid.IntRange(1, 4).Draw(t, "nDuring")
+			}
+			c.Add("composite", o.ID, inst, fmt.Sprint(cuts), want, nDuring)
+			var during func()
+			if nDuring > 0 {
+				during = func() {
+					rot := w.St.BL.PopFronts
+					for i := 0; i < nDuring; i++ {
+						before := len(w.Uploads)
+						newUpload()
+						for _, u := range w.Uploads[before:] {
+							w.FinishPut(u)
+						}
+					}
+					if w.St.BL.PopFronts != rot {
+						rotationsDuringSlicing++
+					}
+				}
+			}
+			w.GetFromCompositeDuring(o, inst, cuts, want, during)
 			if failedObjs[o] {
 				failedKeysRead++
 			}
@@ -231,6 +253,42 @@ func runHistory(t *rapid.T, persistent bool) {
 				}
 			}
 			w.FindMissing(items)
+		},
+		// A second client's FindMissing that overlaps with uploads: first
+		// scan, wait for the refresh lock (held by a slicing composite
+		// read) while uploads complete and rotate blocks, refreshing scan.
+		"findmissingOverlapped": func(t *rapid.T) {
+			parent := lstore.PickObj(t, w, "parent")
+			if cfg.Mutable || parent == nil || parent.Data == nil {
+				fallback()
+				return
+			}
+			pinst := rapid.SampledFrom(lstore.InstanceNames).Draw(t, "pinst")
+			k := rapid.IntRange(1, 5).Draw(t, "k")
+			var items []lstore.ObjInst
+			for i := 0; i < k; i++ {
+				o := lstore.PickObj(t, w, "obj")
+				inst := rapid.SampledFrom(lstore.InstanceNames).Draw(t, "inst")
+				items = append(items, lstore.ObjInst{Obj: o, Instance: inst})
+				c.Add("fmo", o.ID, inst)
+				if failedObjs[o] {
+					failedKeysRead++
+				}
+			}
+			n := rapid.IntRange(0, 4).Draw(t, "uploadsBetween")
+			c.Add("fmOverlapped", parent.ID, pinst, n)
+			_, _, overlapped := w.OverlappedFindMissing(parent, pinst, items, func() {
+				for i := 0; i < n; i++ {
+					before := len(w.Uploads)
+					newUpload()
+					for _, u := range w.Uploads[before:] {
+						w.FinishPut(u)
+					}
+				}
+			})
+			if overlapped {
+				overlappedFM++
+			}
 		},
 		"": func(t *rapid.T) {
 			w.Poll()
@@ -266,6 +324,8 @@ func runHistory(t *rapid.T, persistent bool) {
 	c.ClassIf(acrossRot > 0, "upload_parked_across_rotation")
 	c.ClassIf(failedKeysRead > 0, "read_of_failed_upload_key")
 	c.ClassIf(heldAcrossRotation > 0, "read_held_across_rotation")
+	c.ClassIf(rotationsDuringSlicing > 0, "rotation_during_composite_slicing")
+	c.ClassIf(overlappedFM > 0, "findmissing_waited_for_refresh_lock_during_uploads")
 	c.ClassIf(w.St.BL.PopFronts > 0, "rotated")
 	c.ClassIf(w.St.Alloc.NewBlockFailures > 0, "alloc_failures")
 	c.ClassIf(cfg.Hierarchical, "hierarchical")
